@@ -21,6 +21,7 @@ SINGLE = [
     "cnf",
     "rename:tuple",
     "rename:int",
+    "rename:rotate",
     "renumber",
     "unfold",
 ]
@@ -47,6 +48,12 @@ def apply(cfg, name, arg=None):
         return cfg.unarycycleremove(trim="nt" not in name.split(":")[1:])
     if name == "cnf":
         return cfg.cnf
+    if name == "rename:rotate":
+        # an injective renaming *onto existing names*: rotate all nonterminal symbols, including
+        # those that occur only in rule bodies (and have no rules of their own)
+        syms = sorted({cfg.S} | {r.head for r in cfg.rules} | {y for r in cfg.rules for y in r.body if cfg.is_nonterminal(y)}, key=repr)
+        rot = {x: syms[(i + 1) % len(syms)] for i, x in enumerate(syms)}
+        return cfg.rename(lambda x: rot.get(x, x))
     if name.startswith("rename:"):
         return cfg.rename(renamer(name.split(":")[1]))
     if name == "renumber":
